@@ -612,7 +612,6 @@ Print Assumptions C01_refuted_witnesses.
    error path, Vm::eval and the boot sequence (KeepRun.v, BootMinv.v). *)
 From MW Require Proofs.FlatProofs Proofs.FlatAll Proofs.KeepCalc Proofs.KeepCompile Proofs.KeepRun
   Proofs.BootMinv Proofs.BootGenv Proofs.BootCorollaries.
-From MW Require Import Model.Transform.
 
 Theorem C01_J_unfold : forall s, KeepCalc.J s <->
   ginv s /\ sp s < scap s /\
@@ -767,3 +766,152 @@ Example C01_builtins_loaded_example_run :
                | _ => False end
   | _ => False end.
 Proof. exact BootCorollaries.bn_run. Qed.
+
+(* ====================================================================================== fragment 4 *)
+(* Fragment 4 = fragment 3 + lambda BODIES OF SEVERAL EXPRESSIONS, (lambda (x ...) e1 e2 ... ek), k >= 1
+   (Proofs/Closures4.v, CompileStatic4.v, CompileCorrect4.v, EvalFragment4.v; `begin` is not a core
+   form of the compiler, compile.rs:424-460 loops over the body): e1 .. e(k-1) are compiled in
+   NON-tail position and evaluated for effect, their value stays in %acc and is overwritten; ek is
+   compiled in tail position.  No ei is a (define ...) form (no internal definitions:
+   internally_defined_symbols is then empty whatever k, so the environment map is that of fragment 3).
+   Reference semantics [ref_eval4]: the closure-application rule evaluates the body list with the
+   same left-to-right list judgement as operands ([ref_evals4], global environment threaded) and
+   returns the LAST value.  Everything else as fragment 3. *)
+From MW Require Import Proofs.Closures4 Proofs.CompileStatic4 Proofs.CompileCorrect4 Proofs.EvalFragment4.
+
+Theorem C01_fragment4_static : forall e sc, wf4 e sc ->
+  forall f l tail s, (cell_size (cell_of4 e) < f)%nat -> hdr4 l sc s -> minv s ->
+  exists l' s' code, compile_expression f l tail (cell_of4 e) s = ROk l' s' /\
+    fwd l' = fwd l ++ code /\ same_hdr l l' /\ minv s' /\ cext s s' /\ same_regs s s' /\
+    envs (st s') = envs (st s).
+Proof. exact fragment4_static. Qed.
+Print Assumptions C01_fragment4_static.
+
+(* well-formedness of a lambda with a body list, spelled out *)
+Theorem C01_wf4_lam_unfold : forall sc ps fs bodies, wf4 (ZLam ps fs bodies) sc <->
+  bodies <> [] /\
+  (forall x, In x ps -> is_primitive_symbol (CSym x) = false) /\
+  (forall b, In b bodies -> is_define4 b = false) /\
+  free_symbols (lam_cells ps (map cell_of4 bodies)) = Ok (map CSym fs) /\
+  (forall x, In x (flat_map allvars4 bodies) -> In x ps \/ bound_in sc x = false \/ In x fs) /\
+  Forall (fun b => wf4 b (ps ++ capnames sc fs)) bodies.
+Proof. exact wf4_lam. Qed.
+Print Assumptions C01_wf4_lam_unfold.
+
+Theorem C01_fragment4_correct :
+  forall (ob : N -> M vcell) (bsem : N -> list rval -> option rval),
+  (forall b, builtin_ok ob bsem b) -> (forall b, builtin_envs ob bsem b) ->
+  forall sc lv rho e r rho', ref_eval4 bsem sc lv rho e r rho' ->
+  forall f l tail s l' s' code, wf4 e sc -> (cell_size (cell_of4 e) < f)%nat -> hdr4 l sc s -> minv s ->
+    compile_expression f l tail (cell_of4 e) s = ROk l' s' -> fwd l' = fwd l ++ code ->
+    forall m lp bc,
+      cext s' m -> minv m -> code_in m lp bc -> seg bc (len (fwd l)) code -> ip m = (lp, len (fwd l)) ->
+      genv_rel4 rho m -> lrel4 lv m -> (tail = true -> tframe m) ->
+      ok_n4 ob m lp (len (fwd l) + len code) r rho' \/ (tail = true /\ ok_t4 ob m r rho').
+Proof. exact fragment4_correct. Qed.
+Print Assumptions C01_fragment4_correct.
+
+Theorem C01_ok_n4_unfold : forall ob m lp q r rho', ok_n4 ob m lp q r rho' <->
+  exists n m', RunProofs.steps ob n m = Some m' /\ frame2 m m' /\ minv m' /\ ip m' = (lp, q) /\
+    vrep4 m' (acc m') r /\ genv_rel4 rho' m'.
+Proof. exact ok_n4_unfold. Qed.
+Print Assumptions C01_ok_n4_unfold.
+Theorem C01_ok_t4_unfold : forall ob m r rho', ok_t4 ob m r rho' <->
+  exists n m' k e i b, RunProofs.steps ob n m = Some m' /\ frame_at m k e i b /\ rext m m' /\ minv m' /\
+    vrep4 m' (acc m') r /\ genv_rel4 rho' m' /\
+    sp m' = bp m - k /\ ep m' = e /\ ip m' = i /\ bp m' = b /\ out_log m' = out_log m /\
+    (forall j, j <= bp m - k -> sget m' j = sget m j).
+Proof. exact ok_t4_unfold. Qed.
+Print Assumptions C01_ok_t4_unfold.
+(* the body loop of the model's compile_lambda is [compile_bodies] (tail flag true exactly for the
+   last expression), which is what the code object of a closure value was compiled by *)
+Theorem C01_compile_bodies_is_body_loop : forall f bodies lam s,
+  body_loop4 (compile_expression f) (fold_right CPair CNil bodies) lam s = compile_bodies f lam bodies s.
+Proof. exact compile_bodies_is_body_loop. Qed.
+Print Assumptions C01_compile_bodies_is_body_loop.
+
+Theorem C01_eval_fragment4 :
+  forall (ob : N -> M vcell) (bsem : N -> list rval -> option rval),
+  (forall b, builtin_ok ob bsem b) -> (forall b, builtin_envs ob bsem b) ->
+  forall e rho r rho' s,
+  wf4 e [] -> ref_eval4 bsem [] [] rho e r rho' -> minv s -> genv_rel4 rho s ->
+  transform_expr TRANSFORM_FUEL s (cell_of4 e) = Ok (cell_of4 e) ->
+  exists n m, (forall fuel, (n <= fuel)%nat -> eval ob fuel (cell_of4 e) s = halt_result m) /\
+    vrep4 m (acc m) r /\ genv_rel4 rho' m /\ minv m /\ cext s m /\
+    sp m = sp s /\ bp m = bp s /\ ep m = ep s /\ out_log m = out_log s.
+Proof. exact eval_fragment4. Qed.
+Print Assumptions C01_eval_fragment4.
+
+Theorem C01_eval_fragment4_done :
+  forall (ob : N -> M vcell) (bsem : N -> list rval -> option rval),
+  (forall b, builtin_ok ob bsem b) -> (forall b, builtin_envs ob bsem b) ->
+  forall e rho b rho' s,
+  wf4 e [] -> ref_eval4 bsem [] [] rho e (R4Base b) rho' -> minv s -> genv_rel4 rho s ->
+  transform_expr TRANSFORM_FUEL s (cell_of4 e) = Ok (cell_of4 e) ->
+  exists n m,
+    vrep (acc m) b (hp m) (st m) /\ genv_rel4 rho' m /\ minv m /\ cext s m /\
+    sp m = sp s /\ bp m = bp s /\ ep m = ep s /\ out_log m = out_log s /\
+    (forall fuel, (n <= fuel)%nat -> eval ob fuel (cell_of4 e) s = halt_result m) /\
+    (halt_result m <> RNoFuel \/ (no_ptr_cells (hp m) /\ (rcost b <= cell_fuel m)%nat) ->
+     forall fuel, (n <= fuel)%nat ->
+       eval ob fuel (cell_of4 e) s = ROk (Done (rcell b)) (with_stack m tempty (sp m))).
+Proof. exact eval_fragment4_done. Qed.
+Print Assumptions C01_eval_fragment4_done.
+
+Theorem C01_done_state_ok4 : forall rho m, minv m -> genv_rel4 rho m ->
+  minv (with_stack m tempty (sp m)) /\ genv_rel4 rho (with_stack m tempty (sp m)).
+Proof. exact done_state_ok4. Qed.
+Print Assumptions C01_done_state_ok4.
+
+(* on the booted machine and every session state (R2) *)
+Theorem C01_eval_fragment4_session :
+  forall (ob : N -> M vcell) (bsem : N -> list rval -> option rval),
+  (forall b, builtin_ok ob bsem b) -> (forall b, builtin_envs ob bsem b) ->
+  forall e rho r rho' s0 s,
+  booted = Some s0 -> FlatAll.evals s0 s ->
+  wf4 e [] -> ref_eval4 bsem [] [] rho e r rho' -> genv_rel4 rho s ->
+  transform_expr TRANSFORM_FUEL s (cell_of4 e) = Ok (cell_of4 e) ->
+  exists n m, (forall fuel, (n <= fuel)%nat -> eval ob fuel (cell_of4 e) s = halt_result m) /\
+    vrep4 m (acc m) r /\ genv_rel4 rho' m /\ minv m /\ cext s m /\
+    sp m = sp s /\ bp m = bp s /\ ep m = ep s /\ out_log m = out_log s.
+Proof.
+  intros ob bsem Hb He e rho r rho' s0 s B R Hwf HR G Ht.
+  exact (eval_fragment4 ob bsem Hb He e rho r rho' s Hwf HR (BootMinv.session_minv s0 s B R) G Ht).
+Qed.
+Print Assumptions C01_eval_fragment4_session.
+
+(* non-vacuity: ((lambda (x) 'ignored x) '(1 2)) — a body of two expressions, the first evaluated
+   for effect — has the reference value (1 2), the hypotheses hold on the empty machine ... *)
+Example C01_fragment4_example :
+  wf4 ex6_e [] /\ minv (vm_empty 8192) /\ genv_rel4 rho4_empty (vm_empty 8192) /\
+  ref_eval4 bsem_not [] [] rho4_empty ex6_e (R4Base (RDatum ex2_list)) rho4_empty.
+Proof. exact ex6_hypotheses. Qed.
+(* ... and the model evaluates it to (1 2) with the registers of the start *)
+Example C01_fragment4_example_run :
+  transform_expr TRANSFORM_FUEL (vm_empty 8192) (cell_of4 ex6_e) = Ok (cell_of4 ex6_e) /\
+  match eval other_builtin 200 (cell_of4 ex6_e) (vm_empty 8192) with
+  | ROk (Done c) s' => c = ex2_list /\ sp s' = 0 /\ bp s' = 0 /\ ep s' = USIZE_MAX
+  | _ => False
+  end.
+Proof. exact ex6_run. Qed.
+(* a session: (define g #f), then ((lambda (x) (set! g x) (if g 'yes 'no)) #t) — the non-tail body
+   expression has an effect on a global that the tail expression observes: reference values
+   #<void> and yes ... *)
+Example C01_fragment4_session :
+  wf4 ex7_def [] /\ wf4 ex7_call [] /\ minv (vm_empty 8192) /\ genv_rel4 rho4_empty (vm_empty 8192) /\
+  ref_eval4 bsem_not [] [] rho4_empty ex7_def (R4Base (RDatum CVoid)) ex7_rho /\
+  ref_eval4 bsem_not [] [] ex7_rho ex7_call (R4Base (RDatum (CSym (S_ "yes")))) ex7_rho'.
+Proof. exact ex7_hypotheses. Qed.
+(* ... and the model, run on the two forms in sequence, answers #<void> and yes *)
+Example C01_fragment4_session_run :
+  transform_expr TRANSFORM_FUEL (vm_empty 8192) (cell_of4 ex7_def) = Ok (cell_of4 ex7_def) /\
+  match eval other_builtin 200 (cell_of4 ex7_def) (vm_empty 8192) with
+  | ROk (Done c1) s1 => c1 = CVoid /\
+      transform_expr TRANSFORM_FUEL s1 (cell_of4 ex7_call) = Ok (cell_of4 ex7_call) /\
+      match eval other_builtin 200 (cell_of4 ex7_call) s1 with
+      | ROk (Done c2) s2 => c2 = CSym (S_ "yes") /\ sp s2 = 0 /\ bp s2 = 0 /\ ep s2 = USIZE_MAX
+      | _ => False
+      end
+  | _ => False
+  end.
+Proof. exact ex7_run. Qed.
